@@ -688,7 +688,12 @@ PREFIXES = ['', '', '', ' ', '\n', '\t ', '/**/', '/**/ ', '/***/', '/* c */', '
 UNKNOWN_HEADS = ['explain', 'show', 'grant', 'revoke', 'begin', 'set', 'use', 'call', 'foo', '(select 1)', '1',
                  'values', 'vacuum', 'analyze', 'describe', 'declare', 'from', 'end', 'if', '"select"', 'exec']
 RESTS = [' 1', ' * from t', ' a, b from t where x = 1', ' into t values (1)', ' t set a = 1', ' from t', ' table t',
-         ' view v as select 1', ' index i on t (a)', '', ' ', ' x; ', '\n1']
+         ' view v as select 1', ' index i on t (a)', '', ' ', ' x; ', '\n1',
+         # "whatever follows": continuations that start with a keyword / operator / punctuation after the separator
+         ' as struct 1 as a', ' AS VALUE x from t', ' + 1', ' = 1', ' , a', ' in (1)', ' between 1 and 2', ' like x', ' and b',
+         ' or b', ' not null', ' is null', ' order by a', ' union select 2', ' case when a then b end', " date '2020-01-01'",
+         ' [1]', ' -1', ' distinct a', ' over (x)', ' where x', ' limit 1', ' a asc', ' %s', ' ?', ' @v', ' "x" y', ' null',
+         ' values (1)', ' a -> b', ' a::int', " 'x'::text", ' := 1', ' :: int', ' . x']
 AFTER = [' ', '\n', '\t', '  ', '(1)', '.1', '.x', '(', ';', '', '*', ',', '/* c */', '-- c\n', "'s'", '"x"', '=1',
          '[1]', '::int', ':x', '+1', '-1', '@']
 
@@ -727,8 +732,10 @@ def c18_instance(rng):
         w = rng.choice(['select', 'insert', 'update', 'delete', 'merge'])
         rec = rng.choice(['', '', '', 'recursive '])
         gap = rng.choice([' ', '\n', '  ', ' /* c */ ', '\n-- c\n'])
-        text = pre + recase(rng, 'with') + ' ' + rec + rng.choice([', ', ',', ',\n']).join(ctes) + gap + recase(rng, w) + rng.choice(RESTS)
-        return {'kind': 'cte', 'text': text, 'expected': w.upper(), 'cols': any('(c1' in c for c in ctes), 'rec': rec, 'gap': gap, 'pre': pre, 'n': n}
+        rest = rng.choice(RESTS)
+        text = pre + recase(rng, 'with') + ' ' + rec + rng.choice([', ', ',', ',\n']).join(ctes) + gap + recase(rng, w) + rest
+        return {'kind': 'cte', 'text': text, 'expected': w.upper(), 'cols': any('(c1' in c for c in ctes), 'rec': rec, 'gap': gap, 'pre': pre, 'n': n,
+                'rest': rest}
     head = rng.choice(UNKNOWN_HEADS)
     return {'kind': 'unknown', 'text': pre + recase(rng, head) + rng.choice(RESTS), 'expected': 'UNKNOWN', 'pre': pre}
 
